@@ -2,10 +2,16 @@
 
 use crate::*;
 
+/// Smallest precision used while iterating
+const MIN_ITERATION_PRECISION: u64 = 10;
+
 /// Implementation of inverse: (1/n)
 pub(crate) fn impl_inverse_uint_scale(n: &BigUint, scale: i64, ctx: &Context) -> BigDecimal {
     let guess = make_inv_guess(n.bits(), scale);
-    let max_precision = ctx.precision().get();
+    // iterate with enough digits that successive roundings only
+    // agree after the iteration has converged
+    let max_precision = ctx.precision().get().max(MIN_ITERATION_PRECISION);
+    let iteration_precision = stdlib::num::NonZeroU64::new(max_precision).unwrap();
 
     let s = BigDecimal::new(BigInt::from_biguint(Sign::Plus, n.clone()), scale);
     let two = BigDecimal::from(2);
@@ -33,10 +39,14 @@ pub(crate) fn impl_inverse_uint_scale(n: &BigUint, scale: i64, ctx: &Context) ->
 
         // 'result' has clipped precision, 'running_result' has full precision
         result = if running_result.digits() > max_precision {
-            running_result.with_precision_round(ctx.precision(), ctx.rounding_mode())
+            running_result.with_precision_round(iteration_precision, ctx.rounding_mode())
         } else {
             running_result.clone()
         };
+    }
+
+    if result.digits() > ctx.precision().get() {
+        result = result.with_precision_round(ctx.precision(), ctx.rounding_mode());
     }
 
     return result;
